@@ -8,6 +8,7 @@ CONSTANTS
   BodyRBufs = {0, 1, 256, 8192}
   BodySegs = {"one", "hdr|body", "hdr+1", "crlf", "mid", "hdr|512", "100|1023", "1024", "crlf|1"}
   BodyKinds = {"403", "200ok"}
+  BodyClx = {"5", "268435456", "max"}
   BodyURLs = {"ws"}
 CONSTRAINT Emit
 INVARIANTS InvRefines InvConnOnlyIfProven InvBadReplyIsBadHandshake InvRefusedBeforeNetwork InvRefusedNoLookup InvBodyExact InvKeyFresh InvFailureCloses InvSuccessOpenNoDeadline InvEveryOpUnderDeadline InvFirstHopHook
